@@ -99,11 +99,11 @@ def main():
     elif cmd == 'evalall':
         base = os.path.join(HERE, 'seeded')
         summary = {}
-        for d in sorted(os.listdir(base)):
-            p = os.path.join(base, d, 'patch.diff')
-            if not os.path.exists(p):
-                continue
-            r = evaluate(p)
+        dirs = [d for d in sorted(os.listdir(base)) if os.path.exists(os.path.join(base, d, 'patch.diff'))]
+        from multiprocessing.pool import ThreadPool
+        with ThreadPool(6) as pool:
+            results = pool.map(lambda d: evaluate(os.path.join(base, d, 'patch.diff')), dirs)
+        for d, r in zip(dirs, results):
             meta = json.load(open(os.path.join(base, d, 'meta.json')))
             target = meta['property']
             hit = target in r.get('fired', {})
@@ -116,10 +116,11 @@ def main():
 def evalrefactors():
     base = os.path.join(HERE, 'seeded', 'refactors')
     res = {}
-    for f in sorted(os.listdir(base)):
-        if not f.endswith('.diff'):
-            continue
-        r = evaluate(os.path.join(base, f))
+    files = [f for f in sorted(os.listdir(base)) if f.endswith('.diff')]
+    from multiprocessing.pool import ThreadPool
+    with ThreadPool(6) as pool:
+        results = pool.map(lambda f: evaluate(os.path.join(base, f)), files)
+    for f, r in zip(files, results):
         res[f] = r.get('fired', {}) or r.get('error') or {}
         print(f, 'SILENT' if not r.get('fired') and not r.get('error') else 'ALARM %s' % {k: v[:2] for k, v in r.get('fired', {}).items()}, r.get('error') or '')
     json.dump(res, open(os.path.join(base, 'RESULTS.json'), 'w'), indent=1)
